@@ -1017,6 +1017,7 @@ def full_read(rec, am, box, rng, exp, i, step, which=None, twin_checks=True):
             handed += [bv, bo, box.avect, box.bvect, box.cvect]
         elif r == 'getters':
             check_getters(rec, box, 'history:getters')
+            handed.append(box.reciprocal_vects)
         elif r == 'planes':
             check_planes(rec, box, 'history:planes')
         elif r == 'points':
@@ -1247,6 +1248,14 @@ def run(ctx):
                 for h in handed:
                     scribble(h)
                 judge_state(rec, box, cur_v, cur_o, 1e-12, 0.0, 'history:after-caller-reuses-returned-arrays', op=op)
+                # ... nor may the conversions (which go through the cached reciprocal vectors the caller was just handed)
+                if (i + step) % 2 == 1:
+                    rec.count('history:points-after-caller-reuses-returned-arrays')
+                    rec.context = dict(after='caller overwrote the arrays it was handed (vects, origin, avect.., reciprocal_vects, conversion results)')
+                    try:
+                        check_points(rec, box, rng, 'N', 'f64')
+                    finally:
+                        rec.context = None
                 if (i + step) % 2 == 0:
                     bexp.update(bv=bystander.vects, bo=bystander.origin)
                     rec.count('history:bystander-read')
@@ -1424,6 +1433,7 @@ def run(ctx):
     rec.floor('monitor:origin-setter', 100)
     rec.floor('monitor:planes-getter', 100)
     rec.floor('monitor:reciprocal-getter', 100)
+    rec.floor('history:points-after-caller-reuses-returned-arrays', 20)
     rec.floor('monitor:inside:points-judged', 1000)
     rec.floor('monitor:outside:points-judged', 1000)
     rec.floor('monitor:plane:points-judged', 1000)
